@@ -16,11 +16,16 @@ from the Rust code: a *statically typed* big-step semantics over untagged values
 * `AND` / `OR` short-circuit (the property statement fixes the implementer-specific choice);
 * FOR evaluates initial value, final value and increment once, tests before each iteration,
   faults on increment 0, and the control variable may not be assigned in the body (06 §9);
-* `RETURN` in a PROGRAM is an early exit (06 §6);  EXIT/CONTINUE act on the innermost loop.
+* `RETURN` in a PROGRAM is an early exit (06 §6);  EXIT/CONTINUE act on the innermost loop;
+* stage S3: a one-dimensional array `ARRAY[lo..hi] OF T` has one element of type `T` per index
+  in `lo..hi`, a subscript is any integer expression, a subscript outside the bounds is a fault
+  (`indexOut`), a constant subscript outside the bounds is a static error; a struct has one
+  component per declared field.  The reference keeps one slot per element / field
+  (`elemName`, `fldName`); in `a[i] := e` the value is evaluated before the subscript.
 
 `Strict` = `Spec.typed` plus the decidable guard that excludes exactly the region of the known
 finding "untyped literal lowered to DINT, assignment stores the value as is" (NoDrift), the
-`ULINT as i64` cast of FOR bounds and `RETURN` in a PROGRAM.
+`ULINT as i64` cast of FOR bounds.
 -/
 namespace TrustVerif.StCore
 
@@ -48,7 +53,7 @@ def sinsert (x : String) (v : SV) : SEnv → SEnv
 
 /-- Faults of the reference semantics. -/
 inductive SFault
-  | divZero | modZero | overflow | forStepZero | budget
+  | divZero | modZero | overflow | forStepZero | budget | indexOut
   | stuck        -- the reference has no rule (ill-typed program); never reached from `Spec.typed`
   deriving DecidableEq, Repr, Inhabited
 
@@ -58,6 +63,7 @@ def SFault.name : SFault → String
   | .overflow => "Overflow"
   | .forStepZero => "ForStepZero"
   | .budget => "ExecutionTimeout"
+  | .indexOut => "IndexOutOfBounds"
   | .stuck => "stuck"
 
 namespace Spec
@@ -118,6 +124,20 @@ def infer (Γ : Ctx) : Expr → Option Ty
       match infer Γ l, infer Γ r with
       | some .bool, some .bool => some .bool
       | _, _ => none
+  | .idx a i =>
+    match Γ.aggs.lookup a with
+    | some (.arr lo hi t) =>
+      match atomVal i with
+      | some m => if lo ≤ m ∧ m ≤ hi then some t else none     -- constant subscript: checked statically
+      | none =>
+        match infer Γ i with
+        | some (.int _) => some t
+        | _ => none
+    | _ => none
+  | .fld s f =>
+    match Γ.aggs.lookup s with
+    | some (.str _ fields) => fields.lookup f
+    | _ => none
 
 /-- Exact integer arithmetic of the reference. -/
 def arith (op : BinOp) (x y : Int) : Except SFault Int :=
@@ -208,6 +228,31 @@ def eval (Γ : Ctx) (σ : SEnv) : Expr → Except SFault SV
         let x ← (match atomVal l with | some m => pure m | none => eval Γ σ l >>= asInt)
         let y ← (match atomVal r with | some m => pure m | none => eval Γ σ r >>= asInt)
         pure (.b (compare op x y))
+  | .idx a i =>
+    match Γ.aggs.lookup a with
+    | some (.arr lo hi _) => do
+      let n ← (match atomVal i with | some m => pure m | none => eval Γ σ i >>= asInt)
+      if n < lo ∨ n > hi then .error .indexOut else
+        match slookup (elemName a n) σ with
+        | some v => pure v
+        | none => .error .stuck
+    | _ => .error .stuck
+  | .fld s f =>
+    match slookup (fldName s f) σ with
+    | some v => pure v
+    | none => .error .stuck
+
+/-- Operand value: a contextual constant or an evaluated integer. -/
+def operandVal (Γ : Ctx) (σ : SEnv) (e : Expr) : Except SFault Int :=
+  match atomVal e with
+  | some m => pure m
+  | none => eval Γ σ e >>= asInt
+
+/-- Value of the right-hand side of an assignment: a contextual constant or an evaluated expression. -/
+def valueOf (Γ : Ctx) (σ : SEnv) (e : Expr) : Except SFault SV :=
+  match atomVal e with
+  | some m => pure (SV.n m)
+  | none => eval Γ σ e
 
 /-! ### Statements -/
 
@@ -267,6 +312,14 @@ def typedStmt (Γ : Ctx) (restricted : List String) (inLoop : Bool) : Stmt → B
   | .assign x e =>
     match Γ.lookup x with
     | some t => !restricted.contains x && assignTyped Γ t e
+    | none => false
+  | .assignIdx a i e =>
+    match infer Γ (.idx a i) with
+    | some t => assignTyped Γ t e
+    | none => false
+  | .assignFld s f e =>
+    match infer Γ (.fld s f) with
+    | some t => assignTyped Γ t e
     | none => false
   | .ite c t elifs el =>
     infer Γ c = some .bool && typedBlock Γ restricted inLoop t
@@ -345,8 +398,24 @@ def execStmt (Γ : Ctx) : Nat → SEnv → Stmt → SRes
   | fuel + 1, σ, s =>
     match s with
     | .assign x e =>
-      match (match atomVal e with | some m => pure (SV.n m) | none => eval Γ σ e) with
+      match valueOf Γ σ e with
       | .ok v => (sinsert x v σ, .ok .cont)
+      | .error f => (σ, .error f)
+    | .assignIdx a i e =>
+      match Γ.aggs.lookup a with
+      | some (.arr lo hi _) =>
+        match valueOf Γ σ e with
+        | .error f => (σ, .error f)
+        | .ok v =>
+          match operandVal Γ σ i with
+          | .error f => (σ, .error f)
+          | .ok n =>
+            if n < lo ∨ n > hi then (σ, .error .indexOut)
+            else (sinsert (elemName a n) v σ, .ok .cont)
+      | _ => (σ, .error .stuck)
+    | .assignFld s f e =>
+      match valueOf Γ σ e with
+      | .ok v => (sinsert (fldName s f) v σ, .ok .cont)
       | .error f => (σ, .error f)
     | .ite c t elifs el =>
       match evalBool Γ σ c with
@@ -441,12 +510,25 @@ def distinct : List String → Bool
   | [] => true
   | x :: xs => !xs.contains x && distinct xs
 
+/-- The slots of the aggregates are declared with the element / field types: no elementary
+variable and no other aggregate occupies the name of an element or field slot.  (Always true of
+a parsed program with distinct variable names — an identifier contains neither `[` nor `.` —
+but the theorems quantify over syntax trees.) -/
+def aggOK (Γ : Ctx) : Bool :=
+  Γ.aggs.all fun (a, d) =>
+    match d with
+    | .arr lo hi t => (intRange lo hi).all fun n => Γ.lookup (elemName a n) == some t
+    | .str _ fields => fields.all fun (f, t) => Γ.lookup (fldName a f) == some t
+
 /-- The program belongs to the typed ST core of the reference. -/
 def typed (p : Program) : Bool :=
-  distinct (p.decls.map (·.name)) && p.decls.all declTyped && typedBlock p.ctx [] false p.body
+  distinct (p.decls.map (·.name) ++ p.aggs.map (·.1)) && p.decls.all declTyped && aggOK p.ctx
+    && typedBlock p.ctx [] false p.body
 
 def initEnv (p : Program) : SEnv :=
-  p.decls.map fun d => (d.name, match d.ty with | .bool => SV.b (d.init != 0) | .int _ => SV.n d.init)
+  (p.decls.map fun d => (d.name, match d.ty with | .bool => SV.b (d.init != 0) | .int _ => SV.n d.init)) ++
+  -- elements and fields start at the default initial value of their type (FALSE / 0)
+  (aggSlots p.aggs).map fun (k, t) => (k, match t with | .bool => SV.b false | .int _ => SV.n 0)
 
 /-- One scan cycle of the reference: the body runs to completion, to a RETURN (early exit) or
 to a fault. -/
@@ -492,6 +574,10 @@ def noDriftE (Γ : Ctx) : Expr → Bool
           | some _, _ => false
           | none, _ => true)
       else true)
+  | .idx _ i =>
+    -- a ULINT subscript is cast with `as i64` (`index_to_i64`): excluded like the ULINT FOR bounds
+    noDriftE Γ i && Spec.infer Γ i != some (.int .ulint)
+  | .fld _ _ => true
 
 /-- Strict assignment: exactly the declared type (no widening: the narrower tag would be stored),
 a bare untyped constant only into DINT (it is lowered to DINT). -/
@@ -519,6 +605,15 @@ def strictStmt (Γ : Ctx) : Stmt → Bool
     match Γ.lookup x with
     | some t => strictAssign Γ t e
     | none => false
+  | .assignIdx a i e =>
+    noDriftE Γ (.idx a i) &&
+      match Spec.infer Γ (.idx a i) with
+      | some t => strictAssign Γ t e
+      | none => false
+  | .assignFld s f e =>
+    match Spec.infer Γ (.fld s f) with
+    | some t => strictAssign Γ t e
+    | none => false
   | .ite c t elifs el => noDriftE Γ c && strictBlock Γ t && strictElifs Γ elifs && strictBlock Γ el
   | .case sel brs el => noDriftE Γ sel && strictBranches Γ brs && strictBlock Γ el
   | .for x s e step body =>
@@ -528,7 +623,7 @@ def strictStmt (Γ : Ctx) : Stmt → Bool
   | .repeat body c => strictBlock Γ body && noDriftE Γ c
   | .exit => true
   | .continue => true
-  | .ret => false          -- RETURN in a PROGRAM: known finding (InvalidControlFlow)
+  | .ret => true           -- RETURN in a PROGRAM: early exit (fixed in f3b5b76)
 
 def strictBlock (Γ : Ctx) : Block → Bool
   | .nil => true
